@@ -9,6 +9,7 @@ package main
 import (
 	"fmt"
 	"math/rand"
+	"strings"
 	"time"
 
 	"verif/internal/drive"
@@ -86,6 +87,7 @@ func main() {
 		sc.Parallel = []int{1, 4}[r.Intn(2)]
 		sc.PipeSize = []int{1, 16, 1024}[r.Intn(3)]
 		sc.PlanStyle = r.Intn(4)
+		sc.Bisync = r.Intn(3) == 0
 		opt := rdbx.GenOptions{Version: ver, NowMs: time.Now().UnixMilli(), IDPrefix: "k" + key[5:] + ":", Avoid: []string{"listpacks4"}, NumKeys: 1 + r.Intn(5)}
 		if r.Intn(3) == 0 {
 			sc.DbMap = map[int]int{0: 3, 1: 0, 5: 5}
@@ -149,6 +151,12 @@ func main() {
 		}
 		if !out.Returned {
 			res.Violation("replay-hangs", "Send did not return within 75 s", witness())
+			return
+		}
+		if sc.Bisync && out.Err != nil && strings.Contains(out.Err.Error(), "Bad data format") {
+			// the bidirectional path has no native-command fallback for a target that does not know
+			// the value's encoding: it refuses with the target's error (fail-safe, nothing judged)
+			res.Count("bisync_refused_by_older_target", 1)
 			return
 		}
 		pathOf := func(i int) string {
@@ -286,7 +294,7 @@ func main() {
 				if before[id].ExpireAt != 0 {
 					exp = "ttl"
 				}
-				res.DistinctAdd(fmt.Sprintf("%s|%s|%s|%s|restore=%v", sc.KeyExists, pathOf(i), sameType(i, before[id]), exp, sc.Restore))
+				res.DistinctAdd(fmt.Sprintf("%s|%s|%s|%s|restore=%v|bisync=%v", sc.KeyExists, pathOf(i), sameType(i, before[id]), exp, sc.Restore, sc.Bisync))
 				res.Count("preexisting_keys_judged", 1)
 			}
 			if r.Intn(100) == 0 {
